@@ -2,8 +2,8 @@
 # usage: r5in.sh <prop> <a|b>...  : ingest round-5 deliveries of a property, queue their evaluation
 p=$1; shift
 for x in "$@"; do
-  out=$(/verif/tools/ingest_seed.sh $p /tmp/r5_$p/out/$x); echo "$out"
+  out=$(/verif/tools/ingest_seed.sh $p /tmp/r6_$p/out/$x); echo "$out"
   id=$(echo "$out" | head -1 | cut -d: -f1)
-  case "$out" in *CONFIRMED*) echo "$id $p" >> /tmp/evalqueue.txt;; esac
+  case "$out" in *CONFIRMED*) true;; esac
 done
-git -C /repo worktree remove --force /tmp/r5_$p
+git -C /repo worktree remove --force /tmp/r6_$p
